@@ -81,3 +81,56 @@ def cls_str(c):
     if c.get('note'):
         s += ' note=' + c['note']
     return s
+
+import struct
+
+def _pack_case(c):
+    out = []
+    argv = [a if isinstance(a, bytes) else a.encode() for a in c['argv']]
+    out.append(struct.pack('<I', len(argv)))
+    for a in argv:
+        out.append(struct.pack('<I', len(a)) + a)
+    env = c.get('env') or {}
+    out.append(struct.pack('<I', len(env)))
+    for k, v in env.items():
+        s = ('%s=%s' % (k, v)).encode()
+        out.append(struct.pack('<I', len(s)) + s)
+    cd = (c.get('chdir') or '').encode()
+    out.append(struct.pack('<I', len(cd)) + cd)
+    flags = (c.get('policy', 0) & 3) | (4 if c.get('save') else 0) | (8 if c.get('ign_sigpipe') else 0)
+    out.append(struct.pack('<III', flags, c.get('rfrag', 0), c.get('wfrag', 0)))
+    sin = c.get('stdin')
+    if sin is None:
+        out.append(struct.pack('<I', 0xffffffff))
+    else:
+        out.append(struct.pack('<I', len(sin)) + sin)
+    return b''.join(out)
+
+def batch(variant, cases, jobs=None, outdir=None, timeout=None, workdir=None):
+    """Run many independent cases (own argv/env/stdin/cwd each) under the
+    canonical schedule inside long-lived executors.  Returns one dict per case."""
+    exe = build.lbzx(variant)
+    wd = workdir or common.scratch('batch')
+    path = os.path.join(wd, 'cases.%d.bin' % id(cases))
+    with open(path, 'wb') as f:
+        f.write(b'LBZXB1\n')
+        for c in cases:
+            f.write(_pack_case(c))
+    cmd = [exe, 'batch', '--cases', path, '--jobs', str(jobs or common.NCPU)]
+    if outdir: cmd += ['--outdir', outdir]
+    if timeout: cmd += ['--timeout', str(timeout)]
+    p = subprocess.run(cmd, stdout=subprocess.PIPE, stderr=subprocess.PIPE, env=ENV)
+    os.unlink(path)
+    if p.returncode != 0:
+        common.harness_error('lbzx batch failed (%d): %s' % (p.returncode, p.stderr.decode(errors='replace')[-2000:]))
+    res = []
+    for line in p.stdout.decode(errors='replace').split('\n'):
+        if not line:
+            continue
+        f = line.split('\t')
+        res.append({'idx': int(f[0]), 'kind': f[1], 'code': int(f[2]), 'stdout_len': int(f[3]), 'stdout_hash': f[4],
+                    'stderr_len': int(f[5]), 'stderr_hash': f[6], 'inv': int(f[7]), 'sanitizer': int(f[8]),
+                    'ncp': int(f[9]), 'stderr_head': f[10] if len(f) > 10 else ''})
+    if len(res) != len(cases):
+        common.harness_error('lbzx batch: %d results for %d cases' % (len(res), len(cases)))
+    return res
